@@ -116,6 +116,10 @@ class Reply(object):
         self.kind, self.value, self.delay_ms, self.error, self.message = kind, value, delay_ms, error, message
 
 
+class StepNotEnabled(KeyError):
+    """a schedule names a step that cannot be taken now (a KeyError of the code under test is something else)"""
+
+
 def close_loop(loop):
     """release the self-pipe sockets of an instance's event loop (thousands of simulators run in one process)"""
     if loop is None or loop.is_closed():
@@ -352,12 +356,12 @@ class Sim(object):
             elif step[0] == "deliver":
                 c = self._consumer_for(step[1], step[2])
                 if c is None:
-                    raise KeyError("step not enabled: %r" % (step,))
+                    raise StepNotEnabled("step not enabled: %r" % (step,))
                 self.broker.deliver(step[1], c)
             elif step[0] == "timer":
                 t = [x for x in self.wheel.live() if x.seq == step[1]]
                 if not t:
-                    raise KeyError("step not enabled: %r" % (step,))
+                    raise StepNotEnabled("step not enabled: %r" % (step,))
                 t = t[0]
                 if t.at > CLOCK.ms:
                     CLOCK.ms = t.at
@@ -370,7 +374,7 @@ class Sim(object):
                 self.instances[step[1]].crash()
             elif step[0] == "restart":
                 self.instances[step[1]].start()
-        except KeyError:
+        except StepNotEnabled:
             raise
         except self.pika.broker.SimCrash as e:
             for inst in self.instances:
